@@ -1,5 +1,5 @@
 """C05 — every device prompt maps to exactly one privilege level (decided on whole regular languages).
-Lean: ScrapliModel/Regex/*, PromptClass.lean, Spec/PromptGrammar.lean, Gen/C05Tables.lean, Gen/Cert_*.lean,
+Lean: ScrapliModel/Regex/*, PromptClass.lean, Spec/PromptGrammar.lean, Gen/C05Tables_<table>.lean, Gen/Cert_*.lean,
 ScrapliProps/C05/*.lean (one kernel-checked certificate per obligation), ScrapliProps/C05.lean (summary).
 Real code: constructed core drivers (`_determine_current_priv`, register_configuration_session,
 update_privilege_levels), the channel's compiled prompt pattern, `Channel.get_prompt` over SimTransport."""
@@ -194,7 +194,7 @@ def run(tier, seed):
     if not suites:
         return ck.finish()
     # ---- 3 cases
-    nsamp = 10 if tier == "quick" else 120
+    nsamp = 30 if tier == "quick" else 150
     nmut = 1 if tier == "quick" else 2
     reqs = []
     for sn, d in suites.items():
